@@ -687,6 +687,9 @@ class AI:
                     res = ("bool", False)
                 elif base == "Ne" and y < k:
                     res = ("bool", True)
+        elif a[0] == "ge" and b[0] == "ge":
+            if base == "Add":
+                res = ("ge", min(CAP, a[1] + b[1]))
         elif a[0] == "int" and b[0] == "ge":
             flip = {"Gt": "Lt", "Lt": "Gt", "Ge": "Le", "Le": "Ge", "Eq": "Eq", "Ne": "Ne", "Add": "Add"}
             if base in flip:
@@ -711,9 +714,11 @@ class AI:
             else:
                 res = ("bool", True) if c[1] else s
         if res is None and base in ("Eq", "Ne", "Lt", "Le", "Gt", "Ge") and (a[0] == "sym" or b[0] == "sym") \
-                and a[0] in ("sym", "int", "chr", "bool") and b[0] in ("sym", "int", "chr", "bool"):
+                and a[0] in ("sym", "int", "chr", "bool", "ge") and b[0] in ("sym", "int", "chr", "bool", "ge"):
             # semantic name: the same comparison of the same unknowns is the same unknown
-            res = ("sym", "(%s %s %s)" % (a[1], base, b[1]))
+            an = ">=%d" % a[1] if a[0] == "ge" else a[1]
+            bn = ">=%d" % b[1] if b[0] == "ge" else b[1]
+            res = ("sym", "(%s %s %s)" % (an, base, bn))
         if res is None and base in ("BitAnd", "BitOr", "BitXor") and (a[0] == "sym" or b[0] == "sym") \
                 and a[0] in ("sym", "int") and b[0] in ("sym", "int"):
             res = ("sym", "(%s %s %s)" % (a[1], base, b[1]))
